@@ -95,6 +95,10 @@ enum cc_stat cc_array_sized_new_conf(
     if (!conf->capacity || ex >= CC_MAX_ELEMENTS / conf->capacity)
         return CC_ERR_INVALID_CAPACITY;
 
+    /* The size of the buffer in bytes must be representable as well. */
+    if (element_size != 0 && conf->capacity > SIZE_MAX / element_size)
+        return CC_ERR_INVALID_CAPACITY;
+
     CC_ArraySized *ar = conf->mem_calloc(1, sizeof(CC_ArraySized));
 
     if (!ar)
@@ -810,6 +814,10 @@ static enum cc_stat expand_capacity(CC_ArraySized *ar)
      * at the point of overflow, this is check is valid. */
     if (new_capacity <= ar->capacity) {
         new_capacity = CC_MAX_ELEMENTS;
+    }
+    /* A buffer whose size in bytes is not representable cannot be allocated. */
+    if (ar->data_length != 0 && new_capacity > SIZE_MAX / ar->data_length) {
+        return CC_ERR_ALLOC;
     }
     uint8_t *new_buff = ar->mem_alloc(new_capacity * ar->data_length);
 
